@@ -91,7 +91,8 @@ PROPS = {
   "modules": ["OsmoVerif.Props.C16"],
   "min_theorems": 22,
   "fingerprints": [],
-  "engines": [{"name": "sumtree", "kind": "pure", "n": {"quick": 25000, "thorough": 400000}, "shards": {"quick": 4, "thorough": 16}}],
+  "engines": [{"name": "sumtree", "kind": "pure", "n": {"quick": 25000, "thorough": 400000}, "shards": {"quick": 4, "thorough": 16},
+               "timeout": 12000}],  # a thorough shard is ~7 CPU-minutes; the default 3000 s was hit on a machine running 12 jobs per core
   "rule": "independent histories (reset m, m in 2..10,16,255) over keys of length 0..3 on a 3-4 letter alphabet (shared prefixes, "
           "empty key as nil and as empty slice); after every mutating op: raw-store dump of every internal node + 3 random queries "
           "replayed by the model (incl. `iter b e` / `riter b e` with any bound shape); the oracle compares get/split/prefix for every key of the closure, ~30 subset pairs, "
